@@ -61,3 +61,30 @@ package dnsutils
 //@     invariant (rangeindex == 2 ? true : allSame(m.Additionals))
 //@     invariant forall(k, 0, rangeindex_2 + 1, agedRec(hdrOf(rs[k]), delta))
 //@     invariant forall(k, rangeindex_2 + 1, len(rs), sameRec(hdrOf(rs[k])))
+
+// ---- net_io.go: one frame per call (C13), panic-free for every peer behaviour (C01) --------------------
+// ReadMsgFromTCP: reads exactly the 2-byte prefix and then exactly that many bytes, and decodes that whole
+// body; any read error or undecodable body is an error with no message.
+//@ func ReadMsgFromTCP(c io.Reader) (m *dnsmsg.Msg, n int, err error)
+//@   props C01 C13 C06
+//@   requires c != nil
+//@   ghost nRead int = 0
+//@   ghost flen int = 0
+//@   oncall ReadFull: nRead = nRead + 1
+//@   modifies *
+//@   ensures err == nil ==> m != nil && fresh(m) && wfMsg(m) && nRead == 2 && n == 2 + flen
+//@   ensures err != nil ==> m == nil
+//@   callsite ReadFull: [C13:prefix-then-exactly-the-body] (nRead == 0 ? len(arg1) == 2 : len(arg1) == int(BE16(hdrBuf, 0))) && fresh(arg1)
+//@   callsite UnpackMsg: [C13:decodes-the-whole-frame] nRead == 2 && len(arg0) == int(BE16(hdrBuf, 0))
+//@   onassign length: flen = int(length)
+
+// ReadMsgFromUDP: one datagram, decoded from exactly the bytes read.
+//@ func ReadMsgFromUDP(c io.Reader, bufSize int) (m *dnsmsg.Msg, n int, err error)
+//@   props C01
+//@   requires c != nil && bufSize <= 1048576
+//@   ghost gn int = 0
+//@   aftercall Read: gn = ret0
+//@   modifies *
+//@   ensures err == nil ==> m != nil && fresh(m) && wfMsg(m)
+//@   ensures err != nil ==> m == nil
+//@   callsite UnpackMsg: [C01:decodes-what-was-read] len(arg0) == gn
